@@ -294,6 +294,8 @@ func checkC04(w *World, r *Report) {
 	checkTokenValuesNeverGrow(w, r)
 	checkNoTokenAliases(w, r)
 	checkParseAlwaysParses(w, r, "R04.8")
+	checkRenderReturnsBufferText(w, r)
+	checkSourceReachesScannerUnchanged(w, r)
 }
 
 func onlyDebugRefs(v ssa.Value) bool {
@@ -704,4 +706,145 @@ func checkNoTokenAliases(w *World, r *Report) {
 		})
 	}
 	r.Counts["constant alternatives of token values selected by a comparison"] = n
+}
+
+// checkSourceReachesScannerUnchanged — R04.10: what the tokenizer scans is what Parse was given.
+// Every store into ZeroAllocTokenizer.source is, on every edge, a parameter of the storing
+// function, the empty string, or a value read back from a source field / a saved local — never
+// the result of a call (line-ending normalisation, BOM stripping, trimming): the scanner's text
+// positions are the template's, and every byte between tags is literal text.
+func checkSourceReachesScannerUnchanged(w *World, r *Report) {
+	n := 0
+	for _, fn := range w.pkgFuncs() {
+		instrsOf(fn, func(in ssa.Instruction) {
+			st, ok := in.(*ssa.Store)
+			if !ok {
+				return
+			}
+			fa, ok := st.Addr.(*ssa.FieldAddr)
+			if !ok {
+				return
+			}
+			if t, f := fieldOfAddr(fa); t != "ZeroAllocTokenizer" || f != "source" {
+				return
+			}
+			n++
+			bad := ""
+			var walk func(v ssa.Value, seen map[ssa.Value]bool)
+			walk = func(v ssa.Value, seen map[ssa.Value]bool) {
+				if seen[v] || bad != "" {
+					return
+				}
+				seen[v] = true
+				switch x := v.(type) {
+				case *ssa.Parameter, *ssa.Const, *ssa.FreeVar:
+				case *ssa.Phi:
+					for _, e := range x.Edges {
+						walk(e, seen)
+					}
+				case *ssa.UnOp:
+					if x.Op != token.MUL {
+						bad = v.String()
+						return
+					}
+					if al, ok := x.X.(*ssa.Alloc); ok && al.Referrers() != nil {
+						for _, ref := range *al.Referrers() {
+							if s2, ok := ref.(*ssa.Store); ok && s2.Addr == ssa.Value(al) {
+								walk(s2.Val, seen)
+							}
+						}
+						return
+					}
+					if fa2, ok := x.X.(*ssa.FieldAddr); ok {
+						if _, f := fieldOfAddr(fa2); f == "source" || f == "Source" {
+							return
+						}
+					}
+					bad = v.String()
+				case *ssa.Slice:
+					// a tag's inside handed to the expression tokenizer is a slice of the source
+					walk(x.X, seen)
+				default:
+					bad = v.Name() + " = " + v.String()
+				}
+			}
+			walk(st.Val, map[ssa.Value]bool{})
+			construct := "the scanner's source is the text it was given"
+			if bad == "" {
+				r.ok("R04.10", ssaName(fn), construct, w.posOf(in.Pos()), "parameter, saved value or source field on every edge", true)
+			} else {
+				r.bad("R04.10", ssaName(fn), construct, w.posOf(in.Pos()), "the text stored for scanning is computed ("+bad+") instead of being the text handed in: bytes of the template (line endings, a byte-order mark, trailing blanks) are changed before they can become literal text, so they do not appear in the output as written")
+			}
+		})
+	}
+	r.floor("stores into the tokenizer's source", n, 2)
+}
+
+// checkRenderReturnsBufferText — R04.9: the string a top-level Render returns is the rendered
+// bytes.  In every method named Render that returns (string, error), each string result is the
+// result of a String() call on the output buffer (or the empty string beside an error) — nothing
+// is applied to it afterwards.
+func checkRenderReturnsBufferText(w *World, r *Report) {
+	n := 0
+	for _, fn := range w.pkgFuncs() {
+		if fn.Name() != "Render" || fn.Signature.Recv() == nil || fn.Synthetic != "" || fn.Signature.Results().Len() != 2 {
+			continue
+		}
+		if b, ok := fn.Signature.Results().At(0).Type().Underlying().(*types.Basic); !ok || b.Kind() != types.String {
+			continue
+		}
+		n++
+		bad := ""
+		var walk func(v ssa.Value, seen map[ssa.Value]bool)
+		walk = func(v ssa.Value, seen map[ssa.Value]bool) {
+			if seen[v] || bad != "" {
+				return
+			}
+			seen[v] = true
+			switch x := v.(type) {
+			case *ssa.Const:
+			case *ssa.Phi:
+				for _, e := range x.Edges {
+					walk(e, seen)
+				}
+			case *ssa.UnOp:
+				if al, ok := x.X.(*ssa.Alloc); ok && x.Op == token.MUL && al.Referrers() != nil {
+					for _, ref := range *al.Referrers() {
+						if s2, ok := ref.(*ssa.Store); ok && s2.Addr == ssa.Value(al) {
+							walk(s2.Val, seen)
+						}
+					}
+					return
+				}
+				bad = v.String()
+			case *ssa.Extract:
+				walk(x.Tuple, seen)
+			case *ssa.Call:
+				g := x.Call.StaticCallee()
+				switch {
+				case g != nil && g.Name() == "String" && len(x.Call.Args) == 1:
+					// buf.String()
+				case g != nil && isTwigFn(g) && g.Name() == "Render":
+					// delegation to another top-level Render (Engine.Render → Template.Render)
+				case g != nil && isTwigFn(g) && g.Signature.Results().Len() == 2 && strings.Contains(g.Name(), "Render"):
+				default:
+					bad = "the result of " + x.Call.String()
+				}
+			default:
+				bad = v.String()
+			}
+		}
+		instrsOf(fn, func(in ssa.Instruction) {
+			if ret, ok := in.(*ssa.Return); ok {
+				walk(retResults(ret)[0], map[ssa.Value]bool{})
+			}
+		})
+		construct := "the returned string is the output buffer's text"
+		if bad == "" {
+			r.ok("R04.9", ssaName(fn), construct, w.posOf(fn.Pos()), "String() of the buffer, a delegated Render, or the empty string", true)
+		} else {
+			r.bad("R04.9", ssaName(fn), construct, w.posOf(fn.Pos()), "the method returns "+bad+" rather than the text of the buffer the template was rendered into: bytes of literal text that the transformation does not like (invalid UTF-8, control characters) come out changed, while RenderTo writes them as they are")
+		}
+	}
+	r.floor("top-level Render methods returning a string", n, 1)
 }
